@@ -1,9 +1,12 @@
 """CrossHair / z3 configuration shared by every obligation (DESIGN §2.3)."""
+import os
 import sys
 import time
 import collections
 
-REPO = "/repo"
+# the checks decide /repo; VERIF_DEV_REPO exists only so that a seeded change can be tried in a scratch worktree while
+# /repo is busy (development aid: the registered commands never set it, and the evidence records the tree analysed)
+REPO = os.environ.get("VERIF_DEV_REPO", "/repo")
 
 QSTATS = collections.Counter()
 _installed = False
